@@ -373,7 +373,7 @@ def _c16_extra(seed, quick):
 
 def _c17_extra(seed, quick):
     # the stress workload of C18 as well: a wedged worker or sweeper no longer "keeps completing writes"
-    return conc_shards("C17", seed, "mixed", 20 if quick else 400, 40 if quick else 400, shards=4) + conc_shards("C17", seed, "stress", 3 if quick else 60, 60 if quick else 500, shards=4 if quick else 2, extra=["--ops", "2500" if quick else "20000"]) + ([] if quick else conc_shards("C17", seed, "idle", 1, 200, shards=2))
+    return conc_shards("C17", seed, "mixed", 20 if quick else 400, 40 if quick else 400, shards=4) + conc_shards("C17", seed, "stress", 8 if quick else 60, 60 if quick else 500, shards=4 if quick else 2, extra=["--ops", "2500" if quick else "20000"]) + ([] if quick else conc_shards("C17", seed, "idle", 1, 200, shards=2))
 
 
 SEQ_ONLY = {
